@@ -265,7 +265,7 @@ package kcache
 @*/
 
 /*@ func (*kcache._cache).doList
-  props C01 C15
+  props C01 C15 C07
   theory sync
   requires [valid-c] (and (not (= {c} vnil)) (not (= {c.items} vnil)))
   requires [wf] (WFitems {dom(c.items)} {val(c.items)})
@@ -344,7 +344,7 @@ package kcache
 @*/
 
 /*@ func (*kcache.filterSubscription).Refilter
-  props C06 C12
+  props C06 C12 C07
   theory actors
   requires [valid-s] (and (not (= {s} vnil)) (not (= {s.refilterch} vnil)) (not (= {s.lc} vnil)) (not {closed(s.refilterch)}))
   requires [filter-nonnil] (not (= {filter} vnil))
@@ -354,7 +354,7 @@ package kcache
 @*/
 
 /*@ func (*kcache.filterSubscription).run
-  props C08 C06 C07 C11 C12 C02 C05
+  props C08 C06 C07 C11 C12 C02 C05 C10
   theory actors filters
   requires [valid-s] (and (not (= {s} vnil)) (not (= {s.parent} vnil)) (not (= {s.cache} vnil)) (not (= {s.lc} vnil))
                         (not (= {s.log} vnil)) (not (= {s.readych} vnil)) (not (= {s.refilterch} vnil)) (not (= {s.outch} vnil))
@@ -427,6 +427,23 @@ package kcache
   loop 1 inv [I7-lifecycle-running] (and (= lc 0) (not {closed(s.outch)}))
   at go() assert [opt:handlers-run-serially-on-the-actor-goroutine] false
   loop 1 inv [every-parent-event-after-ready-and-every-new-filter-is-applied] (and (not pendingEvt) (not pendingRefilter))
+  ghost owed : Bool := false
+  ghost readyAtRecv : Bool := false
+  ghost parentClosed : Bool := false
+  ghost parentJoined : Bool := false
+  at recv() set readyAtRecv := {ready}
+  at call(refilter).after set owed := (and (= $result1 vnil) {ready})
+  at call(update).after set owed := (= $result1 vnil)
+  at call(distributeEvents) assert [publishes-only-mutations-applied-while-already-ready] readyAtRecv
+  at call(distributeEvents) set owed := false
+  loop 1 inv [the-events-of-every-mutation-applied-while-ready-are-published] (not owed)
+  loop 1 inv [a-supplied-filter-is-never-forgotten] (=> filterSupplied (or {ready} {pending}))
+  at call(Close) set parentClosed := true
+  at recv(Done) set parentJoined := true
+  at call(ShutdownCompleted) assert [parent-subscription-closed-and-joined-output-closed-first] (and (= lc 1) parentClosed parentJoined {closed(s.outch)})
+  ghost completed : Bool := false
+  at call(ShutdownCompleted) set completed := true
+  exit [completion-is-always-signalled-when-the-actor-returns] completed
 @*/
 
 /*@ nonnil-global kcache.errInvalidType kcache.ErrNotRunning
@@ -571,6 +588,25 @@ package kcache
   loop 1 inv [list-failures-are-fatal] (not failure)
   at go() assert [opt:handlers-run-serially-on-the-actor-goroutine] false
   loop 1 inv [every-completed-list-and-every-watch-event-is-applied] (and (not pendingList) (not pendingEvt))
+  ghost owed : Bool := false
+  at call(sync).after set owed := (and (= $result1 vnil) {initialized})
+  at call(update).after set owed := (= $result1 vnil)
+  at call(distributeEvents) set owed := false
+  loop 1 inv [the-events-of-every-applied-mutation-are-published] (not owed)
+  ghost cause : Bool := false
+  at recv(ShutdownRequest) set cause := true
+  at recv(Done) set cause := true
+  at recv(Result) set cause := (or cause (not (= (|kcache.listResult.err| $val) vnil)))
+  at call(listResourceVersion).after set cause := (or cause (not (= $result1 vnil)))
+  at call(extractList).after set cause := (or cause (not (= $result1 vnil)))
+  at call(sync).after set cause := (or cause (not (= $result1 vnil)))
+  at call(update).after set cause := (or cause (not (= $result1 vnil)))
+  at call(reset).after set cause := (or cause (not (= $result vnil)))
+  at call(ShutdownInitiated) assert [stops-only-on-request-child-completion-or-failure] cause
+  loop 1 inv [no-cause-to-stop-while-running] (not cause)
+  ghost completed : Bool := false
+  at call(ShutdownCompleted) set completed := true
+  exit [completion-is-always-signalled-when-the-actor-returns] completed
 @*/
 
 /*@ neverclosed kcache._subscription.inch
@@ -604,6 +640,9 @@ package kcache
   loop 1 inv [nothing-dropped-means-identical] (=> (= ndrop 0) (forall ((j Int)) (=> (and (<= 0 j) (< j nsent)) (= (select emb j) j))))
   loop 1 inv [running] (and (= lc 0) (not {closed(s.outch)}))
   at go() assert [opt:handlers-run-serially-on-the-actor-goroutine] false
+  ghost completed : Bool := false
+  at call(ShutdownCompleted) set completed := true
+  exit [completion-is-always-signalled-when-the-actor-returns] completed
 @*/
 
 /*@ func (*kcache._subscription).send
@@ -677,6 +716,9 @@ package kcache
   loop 1 inv [initialized-once] (and (= ninit 1) (>= ncb 1) (= lc 0))
   loop 1 inv [every-received-event-was-dispatched] (not evPending)
   at go() assert [opt:handlers-run-serially-on-the-actor-goroutine] false
+  ghost completed : Bool := false
+  at call(ShutdownCompleted) set completed := true
+  exit [completion-is-always-signalled-when-the-actor-returns] completed
 @*/
 
 /*@ neverclosed kcache._cache.syncch kcache._cache.updatech kcache._cache.refilterch kcache._cache.listch kcache._cache.getch
@@ -709,7 +751,7 @@ package kcache
 @*/
 
 /*@ func (*kcache._cache).run
-  props C15 C01 C12
+  props C15 C01 C12 C07
   theory cachereq
   requires [valid-c] (and (not (= {c} vnil)) (not (= {c.items} vnil)) (not (= {c.filter} vnil)) (not (= {c.log} vnil)) (not (= {c.lc} vnil))
         (not (= {c.syncch} vnil)) (not (= {c.updatech} vnil)) (not (= {c.refilterch} vnil)) (not (= {c.listch} vnil)) (not (= {c.getch} vnil)))
@@ -749,6 +791,9 @@ package kcache
   loop 1 inv [representation] (and (WFitems {dom(c.items)} {val(c.items)}) (not (= {c.filter} vnil)) (not (= {c.items} vnil)))
   loop 1 inv [every-request-answered-exactly-once] (and (= nreply nreq) (= lc 0))
   at go() assert [opt:handlers-run-serially-on-the-actor-goroutine] false
+  ghost completed : Bool := false
+  at call(ShutdownCompleted) set completed := true
+  exit [completion-is-always-signalled-when-the-actor-returns] completed
 @*/
 
 /*@ owner (*kcache._cache).run kcache._cache.items kcache._cache.filter
@@ -865,6 +910,9 @@ package kcache
         (or (and (not (= {runch} vnil)) (= {resultch} vnil) (= {tickch} vnil) (= started (+ taken 1)) (= taken delivered))
             (and (= {runch} vnil) (not (= {resultch} vnil)) (= {resultch} {l.resultch}) (= {tickch} vnil) (= started taken) (= taken (+ delivered 1)))
             (and (= {runch} vnil) (= {resultch} vnil) (not (= {tickch} vnil)) (= started taken) (= taken delivered))))
+  ghost completed : Bool := false
+  at call(ShutdownCompleted) set completed := true
+  exit [completion-is-always-signalled-when-the-actor-returns] completed
 @*/
 
 /*@ func (*kcache._lister).executeList
@@ -927,6 +975,9 @@ package kcache
   at call(ShutdownCompleted) assert [after-shutdown-initiated] (= lc 1)
   loop 1 inv [every-object-frame-is-forwarded-or-dropped-on-overflow] (and (= nobj (+ nsent ndrop)) (>= nsent 0) (>= ndrop 0) (= lc 0) (not pending))
   at go() assert [opt:handlers-run-serially-on-the-actor-goroutine] false
+  ghost completed : Bool := false
+  at call(ShutdownCompleted) set completed := true
+  exit [completion-is-always-signalled-when-the-actor-returns] completed
 @*/
 
 /*@ iface kcache.watchSession.events
@@ -993,6 +1044,21 @@ package kcache
   loop 1 inv [retry-channel-is-private] (and (not (= {retrych} vnil)) (not (= {retrych} {w.resetch})))
   loop 1 inv [has-closed-nothing] (forall ((x V)) (not (select $closed x)))
   at go() assert [opt:handlers-run-serially-on-the-actor-goroutine] false
+  ghost needOut : Bool := false
+  ghost requested : Bool := false
+  ghost needRetry : Bool := false
+  at recv(resetch) set needOut := true
+  at store(outch) assert [a-reset-installs-a-new-output-channel] (not (= $val vnil))
+  at store(outch) set needOut := false
+  loop 1 inv [every-reset-replaces-the-output-channel] (not needOut)
+  at recv(ShutdownRequest) set requested := true
+  at call(ShutdownInitiated) assert [watch-failures-are-never-fatal-stops-only-on-request] requested
+  at recv(done) set needRetry := true
+  at call(scheduleRetry) set needRetry := false
+  loop 1 inv [a-finished-session-is-always-retried] (not needRetry)
+  ghost completed : Bool := false
+  at call(ShutdownCompleted) set completed := true
+  exit [completion-is-always-signalled-when-the-actor-returns] completed
 @*/
 
 /*@ immutable kcache._subscription.readych kcache._subscription.outch kcache._subscription.inch kcache._subscription.cache kcache._subscription.lc
@@ -1247,6 +1313,9 @@ package kcache
   loop 2 inv [draining] (= lc 1)
   at go() assert [opt:handlers-run-serially-on-the-actor-goroutine] false
   loop 1 inv [every-parent-event-is-distributed] (not pendingEvt)
+  ghost completed : Bool := false
+  at call(ShutdownCompleted) set completed := true
+  exit [completion-is-always-signalled-when-the-actor-returns] completed
 @*/
 
 /*@ func (*kcache.publisher).Subscribe
